@@ -365,7 +365,10 @@ func (sc *serverConn) readLoop() (err error) {
 				return errConnClosed
 			}
 
-			sc.reader <- fr
+			if !sc.forward(fr) {
+				return errConnClosed
+			}
+
 			continue
 		}
 
@@ -377,7 +380,10 @@ func (sc *serverConn) readLoop() (err error) {
 				sc.handleSettings(st)
 				// forward to handleStreams so the INITIAL_WINDOW_SIZE delta is
 				// applied to open streams in frame order.
-				sc.reader <- fr
+				if !sc.forward(fr) {
+					return errConnClosed
+				}
+
 				continue
 			}
 		case FrameWindowUpdate:
@@ -389,7 +395,10 @@ func (sc *serverConn) readLoop() (err error) {
 			}
 
 			// the actual window bookkeeping happens in handleStreams.
-			sc.reader <- fr
+			if !sc.forward(fr) {
+				return errConnClosed
+			}
+
 			continue
 		case FramePing:
 			ping := fr.Body().(*Ping)
@@ -413,6 +422,20 @@ func (sc *serverConn) readLoop() (err error) {
 	}
 
 	return err
+}
+
+// forward hands a frame to the stream loop. It reports false, and drops the
+// frame, when the stream loop has already gone (it stops after a connection
+// error): a bare send would block for good once the queue is full, and Serve
+// with it, for as long as the peer cares to keep sending.
+func (sc *serverConn) forward(fr *FrameHeader) bool {
+	select {
+	case sc.reader <- fr:
+		return true
+	case <-sc.handlerStop:
+		ReleaseFrameHeader(fr)
+		return false
+	}
 }
 
 // handleStreams handles everything related to the streams
